@@ -342,8 +342,8 @@ def claim_long_integer(cx, res, kf):
             fr.locals[1] = ref
             rv, pos, sig, ex = e.sym_int("u8", "radix"), e.sym_bool("pos"), e.sym_int("u64", "sig"), e.sym_int("i32", "exp0")
             fr.locals[2], fr.locals[3], fr.locals[4], fr.locals[5] = rv, pos, sig, ex
-            info.update(pos=pos.e, sig=sig.e)
-            st.notes["idx"] = z3.BitVec("idx0", 64)
+            info.update(pos=pos.e, sig=sig.e, exp0=ex.e, idx0=z3.BitVec("idx0", 64))
+            st.notes["idx"] = info["idx0"]
             return cons + rd.base + [rv.e == radix, ex.e >= 1]
 
         def on_header(e, st, fr, bb, what):
@@ -363,6 +363,7 @@ def claim_long_integer(cx, res, kf):
         dv = digit_val(b)
         isdig = z3.ULT(dv, bv(radix, 8))
         seen = {"back": 0, "exit": 0}
+        base_done = set()
 
         def build(m):
             # an over-long literal: significand digits (19-20 digits worth), then exp_in further digits, then b
@@ -379,6 +380,9 @@ def claim_long_integer(cx, res, kf):
             if ein is None:
                 res.violations.append({"what": "path ends before the loop: %r" % (t,), "replayed": None})
                 continue
+            base_case(res, st, 0, base_done, lambda a: z3.And(a["locals"][exp_local].e == info["exp0"], a["idx"] == info["idx0"])
+                      if exp_local in a["locals"] else None,
+                      "radix %d: the over-long digit loop does not start from the digit count and cursor it was given" % radix)
 
             def build(m, ein=ein):
                 s = K.mval(m, info["sig"])
@@ -516,19 +520,7 @@ def last_in(st):
     return st.notes["in"][-1] if st.notes.get("in") else (None, None)
 
 
-def base_case(res, st, k, done, cond_fn, what, onm=None):
-    """Base case of a loop-cut induction: the state in which the k-th loop header of the path is first reached (before it
-    is replaced by the arbitrary loop state) must satisfy `cond_fn(arrival)`, under the path condition up to that point.
-    Decided once per distinct arrival (paths share their prefix)."""
-    arr = st.notes.get("arrivals", ())
-    if len(arr) <= k:
-        return
-    bb, a = arr[k]
-    if id(a) in done:
-        return
-    done.add(id(a))
-    cond = cond_fn(a)
-    res.must_be_unsat(list(st.pc[:a["pc_len"]]) + [z3.Not(cond)], what, onm)
+base_case = K.base_case
 
 
 def cur_byte(rd, idx):
@@ -655,6 +647,7 @@ def claim_exponent(cx, res, kf):
     eng, rd, fn, info, terms = run_scanner(cx, res, "parse_exponent", mk_args, ["f64_from_parts", "parse_exponent_overflow"],
                                            ["exp", "positive_exp"], extra_havoc=xh)
     loc = info["loc"]
+    base_done = set()
     seen = {"step": 0, "ovf": 0, "exit": 0, "nodigit": 0}
     I32MAX = (1 << 31) - 1
     for t in terms:
@@ -682,6 +675,20 @@ def claim_exponent(cx, res, kf):
         d = z3.ZeroExt(56, b - bv(48, 8))
         wide = z3.SignExt(32, x) * bv(10, 64) + d
         fits = wide <= bv(I32MAX, 64)
+        # base case: the marker byte is consumed, an optional sign decides the direction ('-' only), the first digit (which
+        # must be there) is the initial exponent value
+        i0 = info["idx0"]
+        s1 = rd.at(i0 + 1)
+        has1 = z3.ULT(i0 + 1, rd.len)
+        sgn_m = z3.And(has1, s1 == bv(ord("-"), 8))
+        sgn_p = z3.And(has1, s1 == bv(ord("+"), 8))
+        dpos = z3.If(z3.Or(sgn_m, sgn_p), i0 + 2, i0 + 1)
+        db = rd.at(dpos)
+        base_case(res, st, 0, base_done,
+                  lambda a: z3.And(a["locals"][loc["positive_exp"]].e == z3.Not(sgn_m), z3.ULT(dpos, rd.len), is_dec_digit(db),
+                                   a["locals"][loc["exp"]].e == z3.ZeroExt(24, db - bv(48, 8)), a["idx"] == dpos + 1)
+                  if loc["exp"] in a["locals"] and loc["positive_exp"] in a["locals"] else None,
+                  "exponent: sign / first digit handling before the digit loop (direction only from `-`, initial value = first digit)")
         if t.kind == "LOOP_BACK":
             seen["step"] += 1
             x2 = st.frames[-1].locals[loc["exp"]].e
@@ -881,6 +888,7 @@ def claim_f64_fast_finite(cx, res, kf):
     eng, rd, fn, info, terms = run_scanner(cx, res, "f64_from_parts", mk_args, [], ["f", "exponent"], extra_havoc=xh,
                                            io=False, timeout_s=300, fp_abstract=True)
     loc = info["loc"]
+    base_done = set()
     seen = {"ok": 0, "range": 0, "back": 0}
     one = z3.FPVal(1.0, z3.Float64())
     for t in terms:
@@ -903,6 +911,11 @@ def claim_f64_fast_finite(cx, res, kf):
         from .symex import FP_UF
         hb, rec = last_in(st)
         fin, ein = rec["f"].e, rec["exponent"].e
+        base_case(res, st, 0, base_done,
+                  lambda a: z3.And(a["locals"][loc["f"]].e == z3.fpUnsignedToFP(z3.RNE(), info["sig"], z3.Float64()),
+                                   a["locals"][loc["exponent"]].e == info["exp"])
+                  if loc["f"] in a["locals"] and loc["exponent"] in a["locals"] else None,
+                  "the scaling loop does not start from (significand as f64, exponent)", replay_candidates(res, True, TINY_CANDIDATES))
         absx = z3.If(ein < 0, -ein, ein)
         hit = z3.ULT(z3.ZeroExt(32, absx), bv(n))
         tk = z3.fpBVToFP(z3.Select(arr, z3.ZeroExt(32, absx)), z3.Float64())
